@@ -234,6 +234,7 @@ type c18BlobCase struct {
 	NKeys    int           `json:"nk"`
 	Single   []int         `json:"single"` // per bucket: -1 = all blobs, else the key named by the URL
 	Rej      []int         `json:"rej"`
+	Undel    []int         `json:"undel"` // keys whose deletion the processor refuses
 	Hist     []c18BlobPoll `json:"hist"`
 }
 
@@ -249,6 +250,11 @@ func c18BlobRun(idx int, c c18BlobCase) []c18.Step {
 	rej := map[int]bool{}
 	for _, r := range c.Rej {
 		rej[r] = true
+	}
+
+	undel := map[int]bool{}
+	for _, u := range c.Undel {
+		undel[u] = true
 	}
 
 	store := func(b int) string { return fmt.Sprintf("c%db%d", idx, b) }
@@ -301,7 +307,7 @@ func c18BlobRun(idx int, c c18BlobCase) []c18.Step {
 		}
 
 		return false, 0, 0, false
-	}, nil)
+	}, undel)
 
 	for cid := 0; cid < 32; cid++ {
 		rec.Register(cid, c18.ValidBytes(cid, rej[cid]))
@@ -477,14 +483,20 @@ func c18BlobCoq(c c18BlobCase, steps []c18.Step) string {
 		evs[i] = fmt.Sprintf("(%d, %s)", p.B, c18BlobPollCoq(c, p))
 	}
 
-	return fmt.Sprintf("(blc %d %d %s [%s] %s)", c.NBuckets, c.NKeys, c18.CoqInts(c.Rej),
+	return fmt.Sprintf("(blc %d %d %s %s [%s] %s)", c.NBuckets, c.NKeys, c18.CoqInts(c.Rej), c18.CoqInts(c.Undel),
 		strings.Join(evs, "; "), vf.CoqListOf(steps, c18.Step.Coq))
 }
 
 // ---- generator ----------------------------------------------------------------
 
 func c18BlobGen(r *vf.Rand) c18BlobCase {
-	c := c18BlobCase{NBuckets: 1 + r.Intn(2), NKeys: 1 + r.Intn(4), Rej: []int{}}
+	c := c18BlobCase{NBuckets: 1 + r.Intn(2), NKeys: 1 + r.Intn(4), Rej: []int{}, Undel: []int{}}
+
+	// a refused deletion makes ruleSetsUpdated stop in the middle of the removed ids, which Go enumerates in
+	// map order: only with a single key is the outcome determined
+	if c.NKeys == 1 && r.Chance(30) {
+		c.Undel = []int{0}
+	}
 	ncid := 2 + r.Intn(5)
 
 	for cid := 1; cid <= ncid; cid++ {
@@ -571,23 +583,27 @@ func c18BlobCorpus() []c18BlobCase {
 	all := func(b int, es ...c18BlobEntry) c18BlobPoll { return c18BlobPoll{B: b, Blobs: es} }
 
 	return []c18BlobCase{
+		// a deletion the processor refuses is retried at the next poll
+		{NBuckets: 1, NKeys: 1, Single: []int{-1}, Rej: []int{}, Undel: []int{0}, Hist: []c18BlobPoll{
+			all(0, e(0, v(1))), all(0), all(0), all(0, e(0, v(2))),
+		}},
 		// C18-F1: a removed blob is reported to the processor under "blob:"+id, which nothing was created under
-		{NBuckets: 1, NKeys: 2, Single: []int{-1}, Rej: []int{}, Hist: []c18BlobPoll{
+		{NBuckets: 1, NKeys: 2, Single: []int{-1}, Rej: []int{}, Undel: []int{}, Hist: []c18BlobPoll{
 			all(0, e(0, v(1)), e(1, v(2))), all(0, e(0, v(1))), all(0, e(0, v(1)), e(1, v(2))),
 		}},
 		// C18-F5: a blob that cannot be loaded freezes the bucket: k1's update and k2's removal are not applied
-		{NBuckets: 1, NKeys: 3, Single: []int{-1}, Rej: []int{5}, Hist: []c18BlobPoll{
+		{NBuckets: 1, NKeys: 3, Single: []int{-1}, Rej: []int{5}, Undel: []int{}, Hist: []c18BlobPoll{
 			all(0, e(0, v(1)), e(1, v(2)), e(2, v(3))),
 			all(0, e(0, c18.Content{Kind: c18.Invalid}), e(1, v(4))),
 			all(0, e(0, v(5)), e(1, v(4))),
 			all(0, e(0, v(1)), e(1, v(4))),
 		}},
 		// C18-F6: an endpoint naming one blob never notices that the blob was deleted
-		{NBuckets: 1, NKeys: 1, Single: []int{0}, Rej: []int{}, Hist: []c18BlobPoll{
+		{NBuckets: 1, NKeys: 1, Single: []int{0}, Rej: []int{}, Undel: []int{}, Hist: []c18BlobPoll{
 			all(0, e(0, v(1))), all(0, e(0, v(2))), all(0), all(0), all(0, e(0, c18.Content{Kind: c18.Empty})),
 		}},
 		// created, unchanged, updated, failing store (gone), back, failing store (kept), aborted
-		{NBuckets: 2, NKeys: 2, Single: []int{-1, -1}, Rej: []int{}, Hist: []c18BlobPoll{
+		{NBuckets: 2, NKeys: 2, Single: []int{-1, -1}, Rej: []int{}, Undel: []int{}, Hist: []c18BlobPoll{
 			all(0, e(0, v(1))), all(1, e(0, v(1)), e(1, v(2))), all(0, e(0, v(1))), all(0, e(0, v(3))),
 			{B: 1, Blobs: []c18BlobEntry{e(0, v(1))}, FailStage: "list", FailCode: "unknown"},
 			all(1, e(0, v(1)), e(1, v(2))),
